@@ -26,6 +26,16 @@ CLAIMS = {
             'All sequences of up to K attribute mentions (11 kinds x 5 names) with symbolic 1-2 character values under 10 '
             'option/syntax sets; output observed through the documented output.text callback and compared with the reference '
             'merge; quoted/unquoted/shorthand values also go through the real tokenizer character by character.', '§3 C03'),
+    'C04': ('bounded symbolic execution (CrossHair/z3): `ex{t}` with every short payload through the real tokenizer, token-level '
+            'payload placements, wrap-text templates with symbolic lines; reference un-escaper / placement as oracle',
+            'Inline text: every Latin-1 payload up to the stated length that closes itself goes through the real tokenizer and must '
+            'come out verbatim (un-escaped); wrap text: templates with implicit repeaters and 1-3 symbolic lines (blank lines, syntax '
+            'look-alikes included) must yield one copy per non-blank line with the trimmed line at the documented place.', '§3 C04'),
+    'C12': ('differential bounded symbolic execution (CrossHair/z3): the same template expanded under two option sets with sentinel '
+            'indent strings; symbolic inlineBreak, repeat counts and payload',
+            'For each template and syntax of the HTML writer: format on (any inlineBreak, leaf formatting, formatSkip/Force choices) '
+            'equals format off after deleting sentinel whitespace; indentation after every newline equals the open-element depth; '
+            'comments add only comment text; self-closing styles differ only before `>`.', '§3 C12'),
     'C11': ('bounded symbolic execution (CrossHair/z3) of the real extract_abbreviation over all short lines x all integer carets x '
             'option sets, plus templates with concrete valid abbreviations and symbolic left/right context',
             'Consistency clauses: path tree of the real extractor exhausted for every ASCII line up to the stated length, every '
